@@ -362,3 +362,35 @@ Theorem C03_tree_token_line_irrelevant :
     TreeSplitRun.tok_sim (TreeModel.process_token tk l s) (TreeModel.process_token tk l' s').
 Proof. exact TreeSplitRun.process_token_line. Qed.
 Print Assumptions C03_tree_token_line_irrelevant.
+
+(* table text (coq/Tree/TreeSplitTable.v): character tokens in "in table" are queued and flushed by the next other
+   token; a cut token leaves two queue entries where the whole token leaves one.  _partial: the flush is covered for a
+   queue of white space only (every entry appended at the current node; foster parenting off, current node not a
+   template element); the foster-parenting branch for a queue with a non-white-space character, the queueing steps
+   and the integration into C03_tree_split_run_partial are not proved. *)
+From HV Require Tree.TreeSplitTable Tree.TreeTables.
+Theorem C03_tree_table_text_flush_ws_split_partial :
+  forall s t pre post a b target,
+    TreeInvDefs.TInv s -> TreeTypes.foster_parenting s = false ->
+    TreeTypes.vlast (TreeTypes.open_elems s) = Some target -> TreeSplit.is_template_node s target = false ->
+    TreeTypes.pending_table_text s = pre ++ [(TreeTypes.NotSplit, a ++ b)] ++ post ->
+    TreeModelRules.pending_contains_nonspace (TreeTypes.pending_table_text s) = false ->
+    TreeTables.first_match TreeTables.heads_in_table_text t = 2 ->
+    let s' := TreeTypes.set_pending_table_text (pre ++ [(TreeTypes.NotSplit, a); (TreeTypes.NotSplit, b)] ++ post) s in
+    match TreeModelRules.step_in_table_text t s, TreeModelRules.step_in_table_text t s' with
+    | TreeTypes.Ok r1 t1, TreeTypes.Ok r2 t2 =>
+        r1 = r2 /\ TreeSplit.same_core t1 t2 /\ TreeContractRun.dom_of t1 = TreeContractRun.dom_of t2
+    | TreeTypes.Panic n1, TreeTypes.Panic n2 => n1 = n2
+    | TreeTypes.OutOfFuel, TreeTypes.OutOfFuel => True
+    | _, _ => False
+    end.
+Proof. exact TreeSplitTable.step_in_table_text_flush_ws_split. Qed.
+Print Assumptions C03_tree_table_text_flush_ws_split_partial.
+
+(* its DOM half: appending the entries of a queue one by one at the same parent, with one entry cut or not *)
+Theorem C03_tree_appends_split :
+  forall target pre post sp sp1 sp2 a b d, TreeSplitTable.bound d target ->
+    Dom.DomSpec.run_from d (TreeSplitTable.append_ops target (pre ++ [(sp, a ++ b)] ++ post)) =
+    Dom.DomSpec.run_from d (TreeSplitTable.append_ops target (pre ++ [(sp1, a); (sp2, b)] ++ post)).
+Proof. exact TreeSplitTable.run_appends_split. Qed.
+Print Assumptions C03_tree_appends_split.
